@@ -330,7 +330,14 @@ def _check_descend(ctx, m, fn):
     else:
         ctx.unknown('V3', m, fn, 'neither a single for-loop nor a single comprehension',
                     construct=label + ': shape')
-    # the None-list default
+    # the None-list default: an identity test; an empty list is a list (its result is [], not the default)
+    from . import gcommon
+    tt = [t for t, wh in gcommon.truthiness_tests(fn)
+          if unparse(t.operand if isinstance(t, ast.UnaryOp) and isinstance(t.op, ast.Not) else t) == p]
+    if tt:
+        ctx.refuted('V3', m, tt[0], 'the node list parameter %s is tested by truthiness: an EMPTY list (math with '
+                    'an empty body, a call without arguments) takes the "no list" path and the parent '
+                    'receives the default (None) instead of []' % p, construct=label + ': None list')
     ctx.holds('V3', m, fn, 'list None handled before the loop' if any(
         isinstance(s, ast.If) and unparse(s.test) == p + ' is None' for s in fn.body)
         else 'no None guard (callers pass lists)', construct=label + ': None list', trivial=True)
